@@ -178,6 +178,14 @@ pub fn mp4_corpus(rng: &mut Rng) -> Vec<(String, Sparse, Cfg)> {
     v.push(("no-moov".into(), Sparse::from_bytes(&[ftyp.clone(), bx(b"mdat", &[1, 2, 3], Enc::S32)].concat()), Cfg::default()));
     v.push(("unknown-box".into(), Sparse::from_bytes(&[ftyp.clone(), bx(b"abcd", &[1, 2, 3], Enc::S32)].concat()), Cfg::default()));
     v.push(("moov-too-large".into(), simple(rng, false), Cfg { max: 3, cum: None }));
+    // a skip that would move the position past u64::MAX: the only Io error a fault-free in-memory input can produce
+    for (k, size) in [u64::MAX, u64::MAX - 19, (1u64 << 63) + 4096].iter().enumerate() {
+        let mut h = vec![0, 0, 0, 1];
+        h.extend_from_slice(b"mdat");
+        h.extend_from_slice(&size.to_be_bytes());
+        h.extend_from_slice(&[7; 9]);
+        v.push((format!("giant-skip-{k}"), Sparse::from_bytes(&[ftyp.clone(), h].concat()), Cfg::default()));
+    }
     for i in 0..3 {
         let g = remux(&mut rng.fork(100 + i), false, true);
         if g.s.len < 4000 {
